@@ -258,3 +258,131 @@ func structuralAsserts(fn *ssa.Function, suffixes ...string) (all, notUnderlying
 	})
 	return
 }
+
+// ---- roles resolved by type shape instead of by (unexported, freely renamable) identifiers
+
+// fieldLoadBy: v is a load of a struct field whose type satisfies pred; returns the struct value and the field's
+// current name (for messages only).
+func fieldLoadBy(v ssa.Value, pred func(types.Type) bool) (base ssa.Value, name string, ok bool) {
+	var fa *ssa.FieldAddr
+	switch x := v.(type) {
+	case *ssa.UnOp:
+		if x.Op != token.MUL {
+			return nil, "", false
+		}
+		fa, _ = x.X.(*ssa.FieldAddr)
+	case *ssa.FieldAddr:
+		fa = x
+	case *ssa.Field:
+		if pred(x.Type()) {
+			return x.X, core.FieldName(x.X.Type(), x.Field), true
+		}
+		return nil, "", false
+	}
+	if fa == nil {
+		return nil, "", false
+	}
+	ft := deref1(fa.Type())
+	if !pred(ft) {
+		return nil, "", false
+	}
+	return fa.X, core.FieldName(fa.X.Type(), fa.Field), true
+}
+
+// mapOf builds a predicate "map whose key type ends with k and whose element type ends with v".
+func mapOf(k, v string) func(types.Type) bool {
+	return func(t types.Type) bool {
+		m, ok := t.Underlying().(*types.Map)
+		return ok && strings.HasSuffix(m.Key().String(), k) && strings.HasSuffix(m.Elem().String(), v)
+	}
+}
+
+var (
+	isBinOpTokenMap  = mapOf("ssa.BinOp", "token.Token")           // operator rewrites of the branch swap
+	isBlockBoolMap   = mapOf("ssa.BasicBlock", "bool")             // swapped blocks
+	isInstrBoolMap   = mapOf("ssa.Instruction", "bool")            // hoisted / sunk instruction marks
+	isInstrInstrMap  = mapOf("ssa.Instruction", "ssa.Instruction") // zipper forward / reverse maps
+	isValueValueMap  = mapOf("ssa.Value", "ssa.Value")             // zipper value map, canonicaliser substitutions
+	isValueStringMap = mapOf("ssa.Value", "string")                // register names
+	isBlockStringMap = mapOf("ssa.BasicBlock", "string")           // block names
+	isStringIntMap   = mapOf("string", "int")                      // ID → slot index
+)
+
+// structFieldOfType lists the names of the fields of named struct type t whose type satisfies pred, in declaration order.
+func structFieldsBy(t types.Type, pred func(types.Type) bool) []string {
+	st, ok := core.Deref(t).Underlying().(*types.Struct)
+	if !ok {
+		return nil
+	}
+	var out []string
+	for i := 0; i < st.NumFields(); i++ {
+		if pred(st.Field(i).Type()) {
+			out = append(out, st.Field(i).Name())
+		}
+	}
+	return out
+}
+
+func isIntegerType(t types.Type) bool {
+	b, ok := t.Underlying().(*types.Basic)
+	return ok && b.Info()&types.IsInteger != 0
+}
+
+func isSSAFunctionPtr(t types.Type) bool { return strings.HasSuffix(t.String(), "*"+ssaPkgPath+".Function") }
+
+// isLoopCounter: an integer phi that starts at a constant and is advanced by a constant on its other edges
+// (go/ssa's synthetic range index, or a hand-written i := 0; ...; i++ counter).
+func isLoopCounter(v ssa.Value) bool {
+	ph, ok := v.(*ssa.Phi)
+	if !ok || !isIntegerType(ph.Type()) {
+		return false
+	}
+	if ph.Comment == "rangeindex" {
+		return true
+	}
+	nConst, nStep := 0, 0
+	for _, e := range ph.Edges {
+		if _, isC := core.ConstInt(e); isC {
+			nConst++
+			continue
+		}
+		if b, ok := e.(*ssa.BinOp); ok && (b.Op == token.ADD || b.Op == token.SUB) && b.X == ssa.Value(ph) {
+			if _, isC := core.ConstInt(b.Y); isC {
+				nStep++
+				continue
+			}
+		}
+		return false
+	}
+	return nConst >= 1 && nStep >= 1
+}
+
+// deref1 removes exactly one pointer level (the type of the variable a *T address points to).
+func deref1(t types.Type) types.Type {
+	if p, ok := t.Underlying().(*types.Pointer); ok {
+		return p.Elem()
+	}
+	return t
+}
+
+// isLiveIterHelper: callee is a store function that opens an iterator on the live *pebble.DB handle and hands it
+// out (the repository's iterator wrapper, whatever it is called).
+func isLiveIterHelper(p *core.Program, c *ssa.CallCommon) bool {
+	g := core.StaticCallee(c)
+	if g == nil || !p.IsProdFunc(g) || g.Blocks == nil {
+		return false
+	}
+	res := g.Signature.Results()
+	if res.Len() == 0 || !strings.HasSuffix(res.At(0).Type().String(), "pebble.Iterator") {
+		return false
+	}
+	found := false
+	core.InstrsOf(g, func(in ssa.Instruction) {
+		if cc := core.CallOf(in); cc != nil {
+			if n := core.CalleeName(cc); strings.HasSuffix(n, ".NewIter") && strings.Contains(n, "pebble.DB)") {
+				found = true
+			}
+		}
+	})
+	return found
+}
